@@ -249,6 +249,13 @@ func (p c04) Run(c *core.Ctx) {
 	// option must be rendered as written again
 	again := r.Bool()
 	if again {
+		// a line and an option that consist of one inline expression only, whose value differs at the second showing
+		id++
+		body = append(body, &hast.Stmt{K: hast.SLine, Parts: []hast.Part{hast.Inl(hast.Var("round"))}, ID: id})
+		id++
+		body = append(body, &hast.Stmt{K: hast.SOptions, ID: id, Options: []*hast.Option{{Parts: []hast.Part{hast.Inl(hast.Bin("+", hast.Var("round"), hast.Num("10")))}}}})
+		id++
+		body = append(body, &hast.Stmt{K: hast.SLine, Parts: []hast.Part{hast.Lit(fmt.Sprintf("sep%d", id))}, ID: id})
 		body = append(body, &hast.Stmt{K: hast.SIf, Clauses: []*hast.Clause{{
 			Cond: hast.Bin("==", hast.Var("round"), hast.Num("0")),
 			Body: []*hast.Stmt{{K: hast.SSet, Var: "round", Op: "=", X: hast.Num("1")}, {K: hast.SJump, Target: "Start"}},
